@@ -4,7 +4,7 @@
   Models of
     wannierberri/smoother.py            : AbstractSmoother.__init__ (NE1), AbstractSmoother.__call__,
                                           VoidSmoother.__call__, get_smoother (dispatch)
-    wannierberri/result/energyresult.py : EnergyResult.dataSmooth
+    wannierberri/result/energyresult.py : EnergyResult.dataSmooth (cached_property), EnergyResult.add (in place)
 
   An n-dimensional array is a function of its multi-index, `Arr K := (Nat → Nat) → K`
   (`idx a` = position along axis `a`); the driver builds it from a flat C-ordered list and a shape.
@@ -76,6 +76,36 @@ def dataSmooth (sm : Nat → Option (Smoother K)) (nE : Nat) (A : Arr K) : Arr K
     only the last pass (axis 0) survives.  Kept to document finding F1 (`Props/C17.lean: old_dataSmooth_…`). -/
 def dataSmoothOld (sm : Nat → Option (Smoother K)) (nE : Nat) (A : Arr K) : Arr K :=
   (List.range nE).reverse.foldl (fun _ i => applySm (sm i) i A) A
+
+/-! ### the cached `dataSmooth` and the in-place `EnergyResult.add` -/
+
+/-- the mutable part of an `EnergyResult`: the raw data and the value memoised by `cached_property` -/
+structure Cached (K : Type) where
+  data : Arr K
+  cache : Option (Arr K)
+
+inductive Op (K : Type)
+  | read                -- evaluate `res.dataSmooth`
+  | add (B : Arr K)     -- `res.add(other)`:  `self.data += other.data`
+
+/-- what `res.dataSmooth` returns in state `s`: the memoised value if there is one, else a fresh computation -/
+def observe (sm : Nat → Option (Smoother K)) (nE : Nat) (s : Cached K) : Arr K :=
+  match s.cache with
+  | some c => c
+  | none => dataSmooth sm nE s.data
+
+/-- repaired code: `add` drops the memoised value (`self.__dict__.pop('dataSmooth', None)`) -/
+def step (sm : Nat → Option (Smoother K)) (nE : Nat) (s : Cached K) : Op K → Cached K
+  | .read => { s with cache := some (observe sm nE s) }
+  | .add B => { data := fun x => s.data x + B x, cache := none }
+
+/-- ORIGINAL code: `add` left the memoised value in place -/
+def stepOld (sm : Nat → Option (Smoother K)) (nE : Nat) (s : Cached K) : Op K → Cached K
+  | .read => { s with cache := some (observe sm nE s) }
+  | .add B => { s with data := fun x => s.data x + B x }
+
+def runOps (sm : Nat → Option (Smoother K)) (nE : Nat) (s : Cached K) (ops : List (Op K)) : Cached K :=
+  ops.foldl (step sm nE) s
 
 end
 
@@ -161,6 +191,27 @@ def handle : List String → String
       | some sl => showRats (listOfArr shape (dataSmoothOld (fun i => (sl.getD i none)) nE (arrOfList shape data)))
       | none => "bad-op"
     | _, _, _ => "bad-op"
+  -- hist|histold <shape> <flat data> <ops: r or a:<flat rats>, '/' separated> <nE> k0 smt0 ... : final observe
+  | "hist" :: sh :: d :: ops :: ne :: slots =>
+    match parseNats? sh, parseRats? d, parseNat? ne, parseSlots (((parseNats? sh).getD [])) 0 slots,
+          (ops.splitOn "/").mapM (fun o => if o = "r" then some (Op.read : Op Rat) else
+            match o.splitOn ":" with
+            | ["a", l] => (parseRats? l).map (fun b => Op.add (arrOfList ((parseNats? sh).getD []) b))
+            | _ => none) with
+    | some shape, some data, some nE, some sl, some ops =>
+      let sm := fun i => (sl.getD i none)
+      showRats (listOfArr shape (observe sm nE (runOps sm nE ⟨arrOfList shape data, none⟩ ops)))
+    | _, _, _, _, _ => "bad-op"
+  | "histold" :: sh :: d :: ops :: ne :: slots =>
+    match parseNats? sh, parseRats? d, parseNat? ne, parseSlots (((parseNats? sh).getD [])) 0 slots,
+          (ops.splitOn "/").mapM (fun o => if o = "r" then some (Op.read : Op Rat) else
+            match o.splitOn ":" with
+            | ["a", l] => (parseRats? l).map (fun b => Op.add (arrOfList ((parseNats? sh).getD []) b))
+            | _ => none) with
+    | some shape, some data, some nE, some sl, some ops =>
+      let sm := fun i => (sl.getD i none)
+      showRats (listOfArr shape (observe sm nE (ops.foldl (stepOld sm nE) ⟨arrOfList shape data, none⟩)))
+    | _, _, _, _, _ => "bad-op"
   | ["ne1", m, s, d] =>
     match parseRat? m, parseRat? s, parseRat? d with
     | some m, some s, some d => toString (ne1 m s d)
